@@ -1,27 +1,28 @@
 package main
 
 import (
-	"os/exec"
-	"time"
-	"strconv"
-	"math/rand"
-	"sort"
 	"encoding/json"
 	"flag"
 	"fmt"
+	"math/rand"
 	"os"
+	"os/exec"
+	"path/filepath"
+	"sort"
+	"strconv"
 	"strings"
+	"time"
 
 	"amverif/codec"
 	"amverif/conc"
+	"amverif/core"
 	"amverif/dbgeng"
+	"amverif/helpers"
 	"amverif/hist"
 	"amverif/pipes"
 	"amverif/race"
 	"amverif/rpcconv"
 	"amverif/super"
-	"amverif/core"
-	"amverif/helpers"
 )
 
 func main() {
@@ -104,9 +105,48 @@ func cmdHelpers(args []string) int {
 	out := fs.String("out", "/verif/out", "")
 	result := fs.String("result", "", "")
 	fs.String("corpus", "", "")
-	fs.String("replay", "", "")
+	replay := fs.String("replay", "", "")
 	search := fs.Bool("search", false, "")
 	fs.Parse(args)
+	if *replay != "" {
+		b, err := os.ReadFile(*replay)
+		if err != nil {
+			fmt.Println(err)
+			return 2
+		}
+		if strings.HasSuffix(*replay, ".wcase") {
+			for _, l := range strings.Split(string(b), "\n") {
+				var sd int64
+				if n, _ := fmt.Sscanf(l, "waiters seed=%d", &sd); n == 1 {
+					fails, line := helpers.WaiterScenario(sd)
+					fmt.Println(line)
+					for _, f := range fails {
+						fmt.Println("MONITOR C20:", f.Msg)
+					}
+					if len(fails) > 0 {
+						return 1
+					}
+					return 0
+				}
+			}
+			fmt.Println("not a waiters case")
+			return 2
+		}
+		// algebra / sweep findings are replayed by re-running the run that produced them (the seed
+		// is part of the file name) and looking for the same file
+		base := filepath.Base(*replay)
+		var sd int64 = 1
+		fmt.Sscanf(base, "C20-seed%d-", &sd)
+		res := helpers.RunPipeline(sd, *tier, *driver, *out, *search)
+		for _, f := range res.Failures {
+			if filepath.Base(f.File) == base {
+				fmt.Printf("MONITOR-FAIL finding=%q %s\n", f.Finding, f.Msg)
+				return 1
+			}
+		}
+		fmt.Println("not reproduced")
+		return 0
+	}
 	res := helpers.RunPipeline(*seed, *tier, *driver, *out, *search)
 	b, _ := json.MarshalIndent(res, "", " ")
 	if *result != "" {
@@ -778,6 +818,22 @@ func cmdCore(args []string) int {
 	corpus := fs.String("corpus", "", "comma separated corpus dirs")
 	search := fs.Bool("search", false, "failing-input search: monitors only, larger budget")
 	fs.Parse(args)
+	if *replay != "" && strings.HasSuffix(*replay, ".rcase") {
+		sd, d, err := core.LoadReaders(*replay)
+		if err != nil {
+			fmt.Println(err)
+			return 2
+		}
+		fs := core.ReaderStress(sd, d, *out)
+		fmt.Println("reader stress", core.ReaderStats)
+		for _, f := range fs {
+			fmt.Printf("MONITOR %s: %s\n", f.Prop, f.Msg)
+		}
+		if len(fs) > 0 {
+			return 1
+		}
+		return 0
+	}
 	if *replay != "" {
 		c, err := core.LoadCase(*replay)
 		if err != nil {
@@ -830,6 +886,21 @@ func cmdCore(args []string) int {
 		p.Corpus = strings.Split(*corpus, ",")
 	}
 	res := p.Run()
+	if *prop == "C01" {
+		// readers concurrent with the mutating goroutine (the sequential cases cannot see them)
+		d := 400 * time.Millisecond
+		if *tier == "thorough" {
+			d = 6 * time.Second
+		}
+		if *search {
+			d *= 4
+		}
+		res.Failures = append(res.Failures, core.ReaderStress(*seed, d, *out)...)
+		if res.Extra == nil {
+			res.Extra = map[string]any{}
+		}
+		res.Extra["reader_stress"] = core.ReaderStats
+	}
 	b, _ := json.MarshalIndent(res, "", " ")
 	if *result != "" {
 		os.WriteFile(*result, b, 0o644)
